@@ -6,6 +6,7 @@ import (
 	"go/token"
 	"go/types"
 	"regexp/syntax"
+	"strconv"
 	"strings"
 	"unicode/utf8"
 
@@ -290,6 +291,18 @@ func minLenFromFacts(facts FactSet, d string) int64 {
 	}
 	if exact >= 0 {
 		return exact
+	}
+	// a string that has a constant prefix/suffix is at least that long
+	for _, fn := range []string{"strings.HasPrefix(", "strings.HasSuffix("} {
+		p2 := fn + d + ","
+		for a := range facts {
+			if strings.HasPrefix(a, p2) && strings.HasSuffix(a, ") == true") {
+				lit := a[len(p2) : len(a)-len(") == true")]
+				if k, err := strconv.Unquote(lit); err == nil && int64(len(k)) > lb {
+					lb = int64(len(k))
+				}
+			}
+		}
 	}
 	for excluded[lb] {
 		lb++
